@@ -49,6 +49,10 @@ STRENGTHENED = {
     "C15_4": "qgen: window functions with integer constants in their ORDER BY",
     "C15_5": "qgen: one-letter aliases b / X",
     "C19_4": "family 'nested calls' and the call-count measure (repr work is invisible to cursor counters)",
+    "XA_3": "C06 payload atoms with full-width punctuation (the text-level pre-pass must not touch quoted text)",
+    "XC_2": "(C13) every combination of the Hive clauses SORT BY / DISTRIBUTE BY / CLUSTER BY / LIMIT as own constructs of the Hive dialect",
+    "XD_2": "every lineage request is also answered by an analyser that has already analysed other statements over the same catalogue; WITH tables named like base tables",
+    "XD_5": "qgen: UNION branches repeated word for word",
     "C19_3": "pattern 'blanks' (long runs of white space) in the scaled inputs; seconds used only in the search phase",
 }
 
